@@ -347,6 +347,45 @@ class Program:
                     walk(nf, sub.body)
         walk(fi, fi.node.body)
 
+    def add_synthetic_module(self, name: str, source: str) -> Module:
+        """Adds analysis-only source (e.g. a three-level driver hierarchy used as a probe
+        definition); it is parsed like repository code and never executed."""
+        mod = Module(name, os.path.join(self.root, "<synthetic>", name.replace(".", "/") + ".py"), source, False)
+        mod.synthetic = True
+        self.modules[name] = mod
+        self._bind_body(mod, mod.tree.body)
+        for ci in mod.classes.values():
+            for b in ci.base_exprs:
+                r = self.resolve_class(ci.module, b)
+                if r is not None:
+                    ci.bases.append(r)
+                    r.subclasses.append(ci)
+        for ci in mod.classes.values():
+            ci.mro = self._mro_of(ci)
+        return mod
+
+    def _mro_of(self, c, stack=()):
+        if c.mro:
+            return c.mro
+        seqs = [list(self._mro_of(b, stack + (c,))) for b in c.bases] + [list(c.bases)]
+        res = [c]
+        while True:
+            seqs = [s for s in seqs if s]
+            if not seqs:
+                break
+            for s in seqs:
+                cand = s[0]
+                if not any(cand in t[1:] for t in seqs):
+                    break
+            else:
+                raise AnalysisError(f"inconsistent MRO for {c.qualname}")
+            res.append(cand)
+            for s in seqs:
+                if s[0] is cand:
+                    del s[0]
+        c.mro = res
+        return res
+
     # --------------------------------------------------------------- resolution
     def lookup_in_module(self, modname: str, name: str, _seen=None):
         """Resolve ``name`` in module ``modname`` to an entity tuple or None.
